@@ -481,7 +481,24 @@ type callObs struct {
 // resumeLoop scans a whole stream with ScanSnapshot, feeding each remainder back
 // in front of the unread input, until EOF (parse errors do not stop it).
 func resumeLoop(input []byte, opts *Opts, maxCalls int) (calls []callObs, terminated bool) {
-	rest := bytes.NewReader(input)
+	return resumeLoopWith(input, opts, maxCalls, nil)
+}
+
+// restReader is what resumeLoopWith needs from the stream reader.
+type restReader interface {
+	io.Reader
+	Len() int
+}
+
+type scriptRest struct{ *scriptReader }
+
+func (s scriptRest) Len() int { return len(s.unread()) }
+
+func resumeLoopWith(input []byte, opts *Opts, maxCalls int, mk func() restReader) (calls []callObs, terminated bool) {
+	var rest restReader = bytes.NewReader(input)
+	if mk != nil {
+		rest = mk()
+	}
 	var suffix []byte
 	pos := 0
 	for n := 0; n < maxCalls; n++ {
@@ -600,12 +617,37 @@ func kindsOf(lines []rline.Line, idx []int) string {
 // prediction. which selects the property view: "C02" conservation, "C07"
 // delimitation/resumption, "C03" robustness, "C08" race attribution.
 func checkTrace(lines []rline.Line, which string) *h.Viol {
+	return checkTraceDelivered(lines, which, 0)
+}
+
+// checkTraceDelivered: delivery 0 = everything at once; 1 = line by line with EOF
+// reported together with the last data; 2 = 5-byte pieces; 3 = everything in one
+// Read together with EOF.
+func checkTraceDelivered(lines []rline.Line, which string, delivery int) *h.Viol {
 	var input []byte
+	var lens []int
 	for _, l := range lines {
-		input = append(input, l.Bytes()...)
+		b := l.Bytes()
+		input = append(input, b...)
+		lens = append(lens, len(b))
 	}
 	pred := rline.Predict(lines)
-	calls, terminated := resumeLoop(input, plainOpts(), len(lines)+3)
+	var mkRest func() restReader
+	switch delivery {
+	case 1:
+		mkRest = func() restReader { return scriptRest{&scriptReader{data: input, chunks: append([]int{}, lens...), eofWithData: true}} }
+	case 3:
+		mkRest = func() restReader { return scriptRest{&scriptReader{data: input, eofWithData: true}} }
+	case 2:
+		mkRest = func() restReader {
+			var cs []int
+			for k := 0; k < len(input); k += 5 {
+				cs = append(cs, 5)
+			}
+			return scriptRest{&scriptReader{data: input, chunks: cs, eofWithData: true}}
+		}
+	}
+	calls, terminated := resumeLoopWith(input, plainOpts(), len(lines)+3, mkRest)
 	mk := func(fp, msg string) *h.Viol {
 		v := &h.Viol{Fingerprint: which + "/" + fp, Summary: msg, Kind: "trace"}
 		v.SetInput(input)
